@@ -1,4 +1,4 @@
-import MuscleModel.Conc.ProofsTP7
+import MuscleModel.Conc.ProofsTP8
 
 /-!
 # C19 — A thread pool handles each client's Messages once, in order, one at a time
@@ -203,17 +203,105 @@ example : ∃ c, Reachable 1 [0] [[.sub 0 1], [.shutdown]] c ∧ c.p.shut = true
   ⟨(machine.runSched (Cfg.init 1 [0] [[.sub 0 1], [.shutdown]]) [.run 0, .run 0, .run 2, .run 1, .run 1]).1,
    machine.reach_runSched Machine.Reach.init _, by decide, by decide, by decide⟩
 
-/- STILL OPEN (full statement; checked on every generated schedule by the harness — oracle "Shutdown() returned while
-   pool thread … is still alive"):
+/-- **`Shutdown()` returns with every pool thread ended.**  If `Shutdown` is called by one thread only
+(`OneShutdownThread progs`; necessary: `two_shutdowns_overtake`), then whenever that thread is at the final section of
+`Shutdown()` (the section that clears the tables, wakes the waiters and returns, all in one step) every pool thread
+that was ever created has left its entry function.  Proof: the cover invariant "every pool thread has ended, or is
+in one of the two tables, or is in the list `Shutdown` is joining" (`Conc/ProofsTP8.lean`), carried through
+`DispatchPendingMessagesUnsafe`, `ThreadFinishedProcessingClientMessages` and the swap/join phases of
+`ShutdownThreadsInTableWithoutDeadlocking`. -/
+theorem shutdown_returns_all_exited {maxT regs progs c} (hd : Disciplined progs) (hn : NoRegIfShutdown progs)
+    (h1 : OneShutdownThread progs) (h : Reachable maxT regs progs c) (t : Tid) (tot : Nat)
+    (hpc : (c.uth t).pc = .sdFinal tot) : ∀ T, T < c.p.idc → (c.pth T).pc = .exited :=
+  (reach_invX hd hn h1 h).cvi.cv3 t tot hpc
 
-   theorem shutdown_returns_all_exited (hd : Disciplined progs) (hn : NoRegIfShutdown progs)
-       (h1 : ∀ t t', Op.shutdown ∈ progs.getD t [] → Op.shutdown ∈ progs.getD t' [] → t = t')     -- Shutdown is called by one thread only
-       (h : Reachable maxT regs progs c) (t) (tot) (hpc : (c.uth t).pc = .sdFinal tot) : ∀ T, T < c.p.idc → (c.pth T).pc = .exited
+/-- the same invariant one phase earlier: while `Shutdown` joins the threads of a table, every pool thread that has not
+ended is the one being joined, next in line, or (first table only) still in the active table -/
+theorem shutdown_join_cover {maxT regs progs c} (hd : Disciplined progs) (hn : NoRegIfShutdown progs)
+    (h1 : OneShutdownThread progs) (h : Reachable maxT regs progs c) {t b nA tot n T rest}
+    (hpc : (c.uth t).pc = .sdJoin b nA tot n T rest) (T' : PTid) (hT' : T' < c.p.idc) :
+    (c.pth T').pc = .exited ∨ T' = T ∨ T' ∈ rest ∨ (b = false ∧ T' ∈ c.p.active) := by
+  obtain ⟨x1, x2, x3⟩ := (reach_invX hd hn h1 h).cvi.cv2 t b nA tot n T rest hpc
+  rcases x1 T' hT' with a | a | a | a
+  · exact Or.inl a
+  · rw [x2] at a; simp at a
+  · cases b with
+    | false => exact Or.inr (Or.inr (Or.inr ⟨rfl, a⟩))
+    | true => rw [x3 rfl] at a; simp at a
+  · simp only [List.mem_cons] at a
+    rcases a with a | a
+    · exact Or.inr (Or.inl a)
+    · exact Or.inr (Or.inr (Or.inl a))
 
-   Proved towards it: `shutdown_join_waits` (each join returns only for an ended thread) and `thread_limit` (the tables
-   are duplicate-free and disjoint).  Missing: the cover invariant "every pool thread has ended, or is in one of the two
-   tables, or is in the list `Shutdown()` is joining" through `DispatchPendingMessagesUnsafe` and the three phases of
-   `ShutdownThreadsInTableWithoutDeadlocking`. -/
+/-- non-vacuity: the final section is reached with a pool thread that exists and has ended -/
+example : ∃ c, Reachable 1 [0] [[.sub 0 1], [.shutdown]] c ∧ (c.uth 1).pc = .sdFinal 1 ∧ c.p.idc = 1 ∧ (c.pth 0).pc = .exited :=
+  ⟨(machine.runSched (Cfg.init 1 [0] [[.sub 0 1], [.shutdown]]) [.run 0, .run 0, .run 2, .run 1, .run 1, .run 1, .run 1, .run 2, .run 2, .run 1, .run 1, .run 1]).1,
+   machine.reach_runSched Machine.Reach.init _, by decide, by decide, by decide⟩
+
+/-- `OneShutdownThread` is necessary: when two threads call `Shutdown()` at the same time, the second finds the tables
+already emptied by the first and reaches its final section while the pool thread is still inside a handler -/
+theorem two_shutdowns_overtake : ∃ c, Reachable 1 [0] [[.sub 0 1], [.shutdown], [.shutdown]] c ∧
+    (c.uth 2).pc = .sdFinal 0 ∧ (c.pth 0).pc = .handler :=
+  ⟨(machine.runSched (Cfg.init 1 [0] [[.sub 0 1], [.shutdown], [.shutdown]])
+      [.run 0, .run 0, .run 3, .run 1, .run 1, .run 1, .run 1, .run 2, .run 2, .run 2, .run 2]).1,
+   machine.reach_runSched Machine.Reach.init _, by decide, by decide⟩
+
+/-! ## The `MASSERT`s of ThreadPool.cpp never fire
+
+The model does not represent assertion failures (`MASSERT` → `MCRASH`); these theorems say that the asserted conditions
+hold wherever the code evaluates them.  The dispatcher evaluates its assertion inside its loop, i.e. in intermediate
+states of a critical section: `massert_dispatch_holds_in_loop` is therefore stated for every state that satisfies the
+structural invariant `Inv0`, and `Conc/ProofsTP0.lean` (`inv0_spawnIfNeeded`, `inv0_assign`, `inv0_dispatchLoop`) shows
+that every iteration of the loop starts in such a state. -/
+
+/-- ThreadPool.cpp:207 `MASSERT(*isBeingHandled == false, "Client that is being handled is in the _pendingMessages table")`,
+evaluated in `DispatchPendingMessagesUnsafe` for a registered client whose pending queue has items — at step boundaries -/
+theorem massert_dispatch_207 {maxT regs progs c} (h : Reachable maxT regs progs c) (k : Client)
+    (hr : k ∈ c.p.regK) (hp : c.p.pend k ≠ []) : c.p.flag k = false := by
+  cases hf : c.p.flag k with
+  | false => rfl
+  | true => exact absurd ((reach_inv0 h).flagPend k hf) hp
+
+/-- … and in every iteration of the dispatcher's loop (any state satisfying the structural invariant) -/
+theorem massert_dispatch_holds_in_loop {c : Cfg} (h : Inv0 c) (k : Client) (hp : c.p.pend k ≠ []) : c.p.flag k = false := by
+  cases hf : c.p.flag k with
+  | false => rfl
+  | true => exact absurd (h.flagPend k hf) hp
+
+/-- ThreadPool.cpp:252 `MASSERT(*isClientBeingHandled, …)`, evaluated in `ThreadFinishedProcessingClientMessages(T, k)`
+when the pool is not shutting down and client k is registered: the pool thread about to enter that critical section
+finds the flag set -/
+theorem massert_finished_252 {maxT regs progs c} (hd : Disciplined progs) (h : Reachable maxT regs progs c) (T : PTid) (k : Client)
+    (hpc : (c.pth T).pc = .finLock k) (hs : c.p.shut = false) : c.p.flag k = true :=
+  (reach_invAll hd h).inv.i1.s1 hs T k (Or.inr hpc)
+
+/-- ThreadPool.cpp:261 `MASSERT(pendingMessages->IsEmpty(), …)`, evaluated in the same critical section when the
+client's deferred queue has items: its pending queue is empty, so the swap promotes the deferred Messages into an
+empty queue -/
+theorem massert_finished_261 {maxT regs progs c} (hd : Disciplined progs) (h : Reachable maxT regs progs c) (T : PTid) (k : Client)
+    (hpc : (c.pth T).pc = .finLock k) (hs : c.p.shut = false) : c.p.pend k = [] :=
+  (reach_inv0 h).flagPend k (massert_finished_252 hd h T k hpc hs)
+
+/-- ThreadPool.cpp:144 `MASSERT(_currentClient == NULL, …)` in `SendMessagesToInternalThread`: a thread taken from the
+available table has no current client (any state of the dispatcher's loop) -/
+theorem massert_send_144 {c : Cfg} (h : Inv0 c) (T : PTid) (hT : T ∈ c.p.availR) : (c.pth T).cur = none :=
+  (h.availIdle T hT).1
+
+/-- ThreadPool.cpp:165 `MASSERT(_currentClient != NULL, …)` in `MessageReceivedFromOwner`: a pool thread that finds the
+batch announcement in its inbox has a current client -/
+theorem massert_received_165 {maxT regs progs c} (hd : Disciplined progs) (hn : NoRegIfShutdown progs) (h : Reachable maxT regs progs c)
+    (T : PTid) (hb : Item.batch ∈ (c.pth T).inbox) : ∃ k, (c.pth T).cur = some k :=
+  ((reach_invLive hd hn h).p.b1 T hb).1
+
+/-- non-vacuity of the assertion theorems: a pool thread at the lock of `ThreadFinishedProcessingClientMessages` with
+Messages deferred behind it -/
+example : ∃ c, Reachable 1 [0] [[.sub 0 1, .sub 0 2]] c ∧ (c.pth 0).pc = .finLock 0 ∧ c.p.shut = false ∧ c.p.defr 0 = [2] ∧ c.p.flag 0 = true :=
+  ⟨(machine.runSched (Cfg.init 1 [0] [[.sub 0 1, .sub 0 2]]) [.run 0, .run 0, .run 1, .run 0, .run 0, .run 1]).1,
+   machine.reach_runSched Machine.Reach.init _, by decide, by decide, by decide, by decide⟩
+
+/- NOT COVERED: the two remaining assertions `_internalQueue.IsEmpty()` (line 145) and `_internalQueue.HasItems()` (line 166)
+   need "an available thread's batch queue is empty" and "a dispatched batch is non-empty", which are not among the
+   invariants proved; the harness would see them as crashes. -/
 
 /-- **No API step ever blocks on `_poolLock`**: a user thread that cannot step has finished, or is inside the `Wait` of
 `UnregisterClient` without a notification, or inside the join of `Shutdown` with the joined pool thread still alive.
